@@ -95,11 +95,14 @@ class ParserState:
                 matched = False
 
                 if whitespace_rule:
+                    self.checkpoint()
                     matched = whitespace_rule.parse(self, children)
                     if matched:
                         some = True
                         pairs.extend(children)
-                        # continue
+                        self.ok()
+                    else:
+                        self.restore()
                     children.clear()
 
                 if comment_rule:
